@@ -35,6 +35,18 @@ int main(int argc, char **argv) {
     auto r = t->connectSync("peer", 1, TlsMode::None, std::chrono::milliseconds(5000)); io.join();
     if (r.isOk() || !log.empty()) replay_io::fail("S1 a session connectSync never handed out must produce no global callback and no observer call");
     replay_io::ok("suppressed");
+  } else if (scen == 4) {
+    // clause AC1: bytes buffered in Sync mode, the peer closes, then the application switches Sync -> Async
+    int ud = 1; t->setSessionData(sid, &ud, [&](void *) { log.push_back("cleanup"); });
+    t->setReadMode(sid, ReadMode::Sync);
+    e->cbs.onData(sid, iora::core::BufferView((const uint8_t *)"AB", 2), std::chrono::steady_clock::now());
+    e->cbs.onClose(sid, TransportErrorInfo{TransportError::PeerClosed, "peer closed"});
+    t->setReadMode(sid, ReadMode::Sync); t->setReadMode(sid, ReadMode::Async);
+    std::string got; for (auto &l : log) got += l + " "; printf("Sync; onData(AB); onClose; setReadMode(Sync); setReadMode(Async) -> %s\n", got.c_str());
+    bool closed = false; for (auto &l : log) { if (l.rfind("global:", 0) == 0) closed = true; else if (closed && l.rfind("data:", 0) == 0) replay_io::fail("AC1 (C02): a data callback was delivered for the id AFTER its close callback (and after its user-data cleanup)"); }
+    uint8_t b[8]; size_t len = 8; auto r = t->receiveSync(sid, b, len, std::chrono::milliseconds(20));
+    if (!r.isOk() || r.value() != 2) replay_io::fail("the bytes buffered before the close must stay readable through receiveSync (C03 drain before EOF)");
+    replay_io::ok("no data callback after the close; buffered bytes still readable through receiveSync");
   } else {
     e->cbs.onClose(sid, TransportErrorInfo{TransportError::PeerClosed, "peer closed"});
     uint8_t b[2] = {1, 2}; e->cbs.onData(sid, iora::core::BufferView(b, 2), std::chrono::steady_clock::now());
